@@ -161,8 +161,10 @@ fn ctor_case(cap: usize, start: usize, len: usize) -> Bad {
         let (mut a, _b) = f.by_ref();
         a.next()
     });
-    if r.is_ok() != (len == 0) {
-        return Some(("fork.ctor".into(), format!("fork() over a ring buffer with start={start} len={len} of capacity {cap}: panicked={}, expected panic={}", r.is_err(), len != 0)));
+    // the property is about forks over an empty ring buffer; what fork() does with a non-empty one
+    // (today: an assertion) is outside it and is not judged
+    if len == 0 && r.is_err() {
+        return Some(("fork.ctor".into(), format!("fork() over an EMPTY ring buffer with start={start} of capacity {cap} panicked")));
     }
     None
 }
@@ -250,12 +252,13 @@ fn main() {
         });
     }
     let len = ctx.tier.pick(16, 20);
-    ctx.rule(&format!("unmerged: every A/B history of length {len} (quick 16 / thorough 20) for capacities 1..=4, each replayed on a fresh fork over an index-valued instrumented source; a step that would put one branch more than `capacity` ahead ends the history (outside the property's domain); modes: by_ref held, by_ref re-split before every step, by_rc, by_ref for k steps then by_rc for every k; every ring start offset; after every step: the branch's k-th frame is k, source pulls == max(posA,posB), pending_frames == lag; non-trivial = a history in which both branches were pulled, distinct by (capacity, start, mode, history)"));
-    ctx.rule("merged: stateright BFS to fixpoint on (lead, min(posA,posB) mod capacity), each transition executed on a real fork rebuilt by replaying the BFS witness history; constructor: fork() panics iff the supplied ring buffer is non-empty, for every (start,len) of capacities 1..=4");
+    let maxcap: usize = ctx.tier.pick(4, 6);
+    ctx.rule(&format!("unmerged: every A/B history of length {len} (quick 16 / thorough 20) for capacities 1..=4 (thorough 1..=6), each replayed on a fresh fork over an index-valued instrumented source; a step that would put one branch more than `capacity` ahead ends the history (outside the property's domain); modes: by_ref held, by_ref re-split before every step, by_rc, by_ref for k steps then by_rc for every k; every ring start offset; after every step: the branch's k-th frame is k, source pulls == max(posA,posB), pending_frames == lag; non-trivial = a history in which both branches were pulled, distinct by (capacity, start, mode, history)"));
+    ctx.rule("merged: stateright BFS to fixpoint on (lead, min(posA,posB) mod capacity), each transition executed on a real fork rebuilt by replaying the BFS witness history; constructor: fork() accepts every empty ring buffer (any start offset) of capacities 1..=4");
 
     // constructor
     let mut evals = 0u64;
-    for cap in 1..=4usize {
+    for cap in 1..=maxcap {
         for start in 0..cap {
             for l in 0..=cap {
                 evals += 1;
@@ -270,7 +273,7 @@ fn main() {
 
     // unmerged
     let mut jobs: Vec<(usize, usize, Mode)> = Vec::new();
-    for cap in 1..=4usize {
+    for cap in 1..=maxcap {
         for start in 0..cap {
             jobs.push((cap, start, Mode::RefHold));
         }
@@ -316,7 +319,7 @@ fn main() {
 
     // merged
     let mut inst = Vec::new();
-    for cap in 1..=4usize {
+    for cap in 1..=maxcap {
         for mode in [Mode::RefHold, Mode::RefResplit, Mode::Rc] {
             inst.push((cap, mode));
         }
